@@ -9,6 +9,7 @@
 //	YIELD(e)  YIELDFROM(it)  RETURN
 //	GENCALL(T, f, args…)       calling a generator: an iterator value in both worlds
 //	ITER(T)                    the iterator type           co: co.Iter[T]     ref: vm.PullerOf[T]
+//	RETURNX(e)                 return with an operand      co: return e       ref: { _ = e; return }
 //	ITERFIELD()                name of an embedded field of that type   co: Iter   ref: PullerOf
 //	RANGEITER(v, tok, e) {     consumer loop               co: for v tok range e {
 //	                                                         ref: for it := e; it.MoveNext(); { v tok it.Current()
@@ -127,7 +128,7 @@ func (x *expander) q(name string) string { // qualified co identifier
 	return x.co + "." + name
 }
 
-var macros = []string{"GENCALL", "YIELDFROM", "YIELD", "RANGEITER", "ITERFIELD", "ITER", "GENLIT", "GENM", "GEN"}
+var macros = []string{"GENCALL", "YIELDFROM", "YIELD", "RANGEITER", "RETURNX", "ITERFIELD", "ITER", "GENLIT", "GENM", "GEN"}
 
 // expand rewrites every macro occurrence, innermost arguments first
 func (x *expander) expand(s string) string {
@@ -190,6 +191,12 @@ func (x *expander) macro(m string, args []string, after string) (string, int) {
 			return "vm.YieldFromRef(y, " + args[0] + ")", 0
 		}
 		return x.q("YieldFrom") + "(" + args[0] + ")", 0
+	case "RETURNX":
+		// `return e` with a non-nil operand: the operand is evaluated (and ignored), then the generator ends
+		if x.ref {
+			return "{ _ = " + args[0] + "; return }", 0
+		}
+		return "return " + args[0], 0
 	case "ITERFIELD":
 		// the name of an embedded field of the iterator type: ITERFIELD()
 		if x.ref {
